@@ -456,6 +456,7 @@ func init() {
 		cv, c := fr.i.newCtx(args[0], nil)
 		return tuple{cv, &nativeFn{name: "cancel", f: func(fr *frame, a []value) value {
 			c.cancel(ctxErr("Canceled"))
+			fr.i.path.sched.runOthers()
 			return nil
 		}}}
 	})
@@ -467,6 +468,7 @@ func init() {
 		})
 		return tuple{cv, &nativeFn{name: "cancel", f: func(fr *frame, a []value) value {
 			c.cancel(ctxErr("Canceled"))
+			fr.i.path.sched.runOthers()
 			return nil
 		}}}
 	}
